@@ -382,7 +382,7 @@ def run(ctx, replay=None):
     if replay:
         cases = [replay["case"]]
     else:
-        mult = 1 if ctx.quick else 8
+        mult = 1 if ctx.quick else 6
         _wass_counter[0] = 0
         cases = list(CORPUS)
         for g in GENS:
